@@ -243,7 +243,8 @@ def part_b(run):
         rng.shuffle(keys)
         vis = {"pub": "pub ", "pub(crate)": "pub(crate) ", "inherited": ""}[o["visibility"]]
         opname = c["doc_model"]["operations"][0]["name"]
-        sname = opname
+        from .. import names as _names
+        sname = _names.camel(opname) if (o.get("normalization") or "").lower().strip() == "rust" else opname
         attr = "#[derive(graphql_client::GraphQLQuery)]\n#[graphql(%s%s)]\n#[allow(dead_code)]\n%sstruct %s;\n" % (rng.choice([", ", ",\n  "]).join(keys), rng.choice(["", ","]), vis, sname)
         # the consumer's extern enum / scalar support follows the normalisation actually in force
         eff_norm = "rust" if (o.get("normalization") or "").lower().strip() == "rust" else "none"
